@@ -75,6 +75,10 @@ def _one(c, U, jax, jnp, log_density):
     fitters, masks = [], []
     for b in range(nb):
         data, rms, psf = U.make_images(rng, N, positive=positive)
+        if not positive:
+            # counts images, zero padding: pixels that are exactly 0 are data like any other
+            zi = rng.integers(0, N, size=(4, 2))
+            data[zi[:, 0], zi[:, 1]] = 0.0
         mask = U.make_mask(rng, N, c["mask_style"], c["mask_dtype"])
         sky = "flat" if positive else ["none", "flat", "tilted-plane"][int(rng.integers(0, 3))]
         if c["kind"] == "multi":
@@ -129,20 +133,23 @@ def _one(c, U, jax, jnp, log_density):
     def ldp(p):
         return log_density(build(), (), {}, p)[0]
     rms_zero = []
-    for tiny in (0.0, 1e-25):
-        rz = []
-        for r, g in zip(rms0, good):
-            r2 = r.copy()
+    for tiny, dval in ((0.0, None), (1e-25, None), (7.5e3, 1e30)):
+        rz, dz = [], []
+        for d, r, g in zip(data0, rms0, good):
+            r2, d2 = r.copy(), d.copy()
             r2[~g] = tiny
+            if dval is not None:
+                d2[~g] = dval            # a bad-pixel sentinel under the mask
             rz.append(jnp.asarray(r2))
-        base_rz = np.asarray(ld(d_in, rz))
-        gdz, grz = jax.grad(ld, argnums=(0, 1))(d_in, rz)
+            dz.append(jnp.asarray(d2))
+        base_rz = np.asarray(ld(dz, rz))
+        gdz, grz = jax.grad(ld, argnums=(0, 1))(dz, rz)
         # gradient w.r.t. the latent parameters must stay finite as well
-        for f, d, r in zip(inner, data0, rz):
-            f.data, f.rms = jnp.asarray(d), r
+        for f, d, r in zip(inner, dz, rz):
+            f.data, f.rms = d, r
         gp = jax.grad(ldp)(params)
         gp_finite = bool(all(np.all(np.isfinite(np.asarray(x))) for x in gp.values()))
-        rms_zero.append(dict(value=tiny, base=base_rz, gd=[np.asarray(x) for x in gdz], gr=[np.asarray(x) for x in grz], gp_finite=gp_finite))
+        rms_zero.append(dict(value=tiny, data_value=dval, base=base_rz, gd=[np.asarray(x) for x in gdz], gr=[np.asarray(x) for x in grz], gp_finite=gp_finite))
     # changing an unmasked pixel must change the density
     changed = []
     for b, g in enumerate(good):
@@ -228,10 +235,11 @@ def oracle_case(c, r):
     if any_masked:
         for z in r["rms_zero"]:
             if not (z["base"] == r["base"]):
-                out.append(v("rms-zero-density", f"log-density changed from {r['base']!r} to {z['base']!r} with rms = {z['value']:g} at masked pixels"))
+                out.append(v("rms-zero-density", f"log-density changed from {r['base']!r} to {z['base']!r} with rms = {z['value']:g}"
+                                                 f"{'' if z.get('data_value') is None else ' and data = %g' % z['data_value']} at masked pixels"))
             bad = any((~np.isfinite(a[~g])).any() or (a[~g] != 0).any() for a, g in zip(z["gd"] + z["gr"], r["good"] + r["good"]))
             if bad or not z["gp_finite"]:
-                out.append(v("rms-zero-grad", f"rms = {z['value']:g} at masked pixels gives NaN / non-zero derivatives "
+                out.append(v("rms-zero-grad", f"rms = {z['value']:g}{'' if z.get('data_value') is None else ' and data = %g' % z['data_value']} at masked pixels gives NaN / non-zero derivatives "
                              f"(d/d(data,rms) at masked pixels clean: {not bad}; gradient w.r.t. the model parameters finite: {z['gp_finite']})"))
     if not all(r["changed"]):
         out.append(v("unmasked-ignored", "changing an unmasked pixel left the log-density unchanged"))
